@@ -8,3 +8,7 @@ Require Import Puan.Config.
 (* StingyConfigurator.add: observed = Some result, or None when the implementation raised *)
 Definition check_add (c : idtable * prop * prop * option prop) : bool :=
   let '(t, cfg, r, obs) := c in opt_eqb prop_eqb (stingy_add (genid_of t) cfg r) obs.
+
+Require Import Puan.Cic.
+Definition check_cic (c : idtable * cic * prop) : bool :=
+  let '(t, d, obs) := c in prop_eqb (from_cic (genid_of t) d) obs.
